@@ -136,11 +136,11 @@ fn run_case(c: &Case) -> (String, Result<(), String>) {
                 ));
                 if mon.is_ok() {
                     if n.attempt_num != produced {
-                        mon = Err(format!("attempt {} numbered {}", produced, n.attempt_num));
+                        mon = Err(format!("C13: attempt {} numbered {}", produced, n.attempt_num));
                     } else if n.max_attempts != c.attempts {
-                        mon = Err(format!("max_attempts reported {} configured {}", n.max_attempts, c.attempts));
+                        mon = Err(format!("C13: max_attempts reported {} configured {}", n.max_attempts, c.attempts));
                     } else if dur_nanos(n.duration) != law(c, produced) {
-                        mon = Err(format!("attempt {}: delay {}ns, law gives {}ns", produced, dur_nanos(n.duration), law(c, produced)));
+                        mon = Err(format!("C13: attempt {}: delay {}ns, law gives {}ns", produced, dur_nanos(n.duration), law(c, produced)));
                     }
                 }
             }
@@ -158,30 +158,30 @@ fn run_case(c: &Case) -> (String, Result<(), String>) {
             (h0, v.iter().map(|n| (n.attempt_num, dur_nanos(n.duration))).collect::<Vec<_>>(), h1, again)
         });
         match r {
-            Err(p) => mon = Err(format!("the schedule iterator panicked outside next() (size_hint / collect): {p}")),
+            Err(p) => mon = Err(format!("C12/C13: the schedule iterator panicked outside next() (size_hint / collect): {p}")),
             Ok((h0, v, h1, again)) => {
                 let n = c.attempts as usize;
-                if v.len() != n { mon = Err(format!("collect() yields {} attempts, configured {n}", v.len())); }
-                else if let Some((i, (num, d))) = v.iter().enumerate().find(|(i, (num, d))| *num as usize != i + 1 || *d != law(c, *i as u32 + 1)) { mon = Err(format!("collect(): attempt {} is numbered {num} with delay {d}ns, law gives {}ns", i + 1, law(c, i as u32 + 1))); }
-                else if h0.0 > n || h0.1.map(|u| u < n).unwrap_or(false) { mon = Err(format!("size_hint {h0:?} of a fresh schedule of {n} attempts")); }
-                else if h1.0 != 0 || again { mon = Err(format!("an exhausted schedule reports size_hint {h1:?} / yields again: {again}")); }
+                if v.len() != n { mon = Err(format!("C12/C13: collect() yields {} attempts, configured {n}", v.len())); }
+                else if let Some((i, (num, d))) = v.iter().enumerate().find(|(i, (num, d))| *num as usize != i + 1 || *d != law(c, *i as u32 + 1)) { mon = Err(format!("C13: collect(): attempt {} is numbered {num} with delay {d}ns, law gives {}ns", i + 1, law(c, i as u32 + 1))); }
+                else if h0.0 > n || h0.1.map(|u| u < n).unwrap_or(false) { mon = Err(format!("C13: size_hint {h0:?} of a fresh schedule of {n} attempts")); }
+                else if h1.0 != 0 || again { mon = Err(format!("C12/C13: an exhausted schedule reports size_hint {h1:?} / yields again: {again}")); }
             }
         }
     }
     if panicked {
         out.push_str("PANIC");
         if mon.is_ok() {
-            mon = Err(format!("next() panicked producing attempt {}", produced + 1));
+            mon = Err(format!("C12/C13: next() panicked producing attempt {}", produced + 1));
         }
     } else {
         out.push_str(&format!("|more={}", more as u8));
         if mon.is_ok() {
             let expect_total = c.attempts;
             if produced < c.take && produced != expect_total {
-                mon = Err(format!("schedule ended after {} attempts, configured {}", produced, expect_total));
+                mon = Err(format!("C12/C13: the schedule ended after {} attempts, configured {} (a stream gives up before its budget is used)", produced, expect_total));
             }
             if produced == c.take && more != (expect_total > c.take) {
-                mon = Err(format!("after {} attempts more={}, configured {}", produced, more, expect_total));
+                mon = Err(format!("C12/C13: after {} attempts more={}, configured {}", produced, more, expect_total));
             }
         }
     }
